@@ -137,3 +137,33 @@ package pe
 //@   safety
 //@   ensures [scalar-type-respected] result.0 && len(filter.Enum) == 0 && typeOf(value) == string ==> filter.Type == "string"
 //@   ensures [non-scalar-matches-only-through-an-element] result.0 && len(filter.Enum) == 0 && !(typeOf(value) == string) && !(typeOf(value) == float64) && !(typeOf(value) == int) && !(typeOf(value) == bool) ==> did(call matchFilter #2) && ret(call matchFilter #2).0 == true
+
+// ---- C19: a decoded presentation definition has no null entries ----
+// Matching dereferences the entries of input_descriptors, submission_requirements and from_nested. The
+// JSON schema forbids null entries, but not every definition is validated against it before decoding, so
+// decoding itself refuses them. (The use sites rely on this; the invariant is established here and is
+// NOT threaded through their preconditions - a definition built in Go code is outside it.)
+//@ func v2.Validate
+//@   trusted
+//@   benign
+//@ func ParsePresentationDefinition
+//@   prop C19
+//@   safety
+//@   assume-benign
+//@   ensures [a-definition-or-an-error] isNilIface(result.1) ==> result.0 != nil
+//@   ensures [only-what-the-schema-accepts] isNilIface(result.1) ==> isNilIface(ret(call v2.Validate #1)) && arg(call v2.Validate #1, 0) == raw && arg(call v2.Validate #1, 1) == v2.PresentationDefinition
+//@ func hasNilSubmissionRequirement
+//@   prop C19
+//@   safety
+//@   modifies nothing
+//@   loop 1 invariant forall k int :: 0 <= k && k < $i ==> submissionRequirements[k] != nil
+//@   ensures [clean-means-no-null-entry-at-this-level] !result ==> forall k int :: 0 <= k && k < len(submissionRequirements) ==> submissionRequirements[k] != nil
+//@ func (*PresentationDefinition).UnmarshalJSON
+//@   prop C19
+//@   safety
+//@   modifies *presentationDefinition
+//@   requires presentationDefinition != nil
+//@   loop 1 invariant forall k int :: 0 <= k && k < $i ==> decoded.InputDescriptors[k] != nil
+//@   ensures [decoded-definitions-have-no-null-entries] isNilIface(result) ==> (forall k int :: 0 <= k && k < len(presentationDefinition.InputDescriptors) ==> presentationDefinition.InputDescriptors[k] != nil)
+//@        && (forall k int :: 0 <= k && k < len(presentationDefinition.SubmissionRequirements) ==> presentationDefinition.SubmissionRequirements[k] != nil)
+//@        && did(call hasNilSubmissionRequirement #1) && !ret(call hasNilSubmissionRequirement #1)
